@@ -10,21 +10,21 @@ LEVEL = {
  "C02": "Proved in full for the model: every pair of bounds (incl/excl/unbounded, in gaps, at the 65534 edge), every series: read_all returns exactly the selected lines or nothing (C02_range_read, C02_seek: binary search, area classification, delta scans, reader).",
  "C03": "Proved in full for the model: accepted iff the accept rule holds; accepted appends extend the represented list, refused ones change no file and no state (C03_append_refines_spec).",
  "C04": "Proved for the model: close/reopen is the identity on the abstract state and on every file, any list/length/header, unconditional for payload sizes >= 4 (C04_reopen_p4: header parser, tail checks, backwards search of the last full timestamp, index validation, last-line read); every payload size under the single condition that no continuation slot of a section header looks like a marker line (C04_reopen_any_payload), whose failure is the known finding D6 (witness lemma C04_open_intact_refuted). Series with cache levels: C09.",
- "C05": "Proved for the model, payload sizes >= 4: data file cut at ANY byte length, index absent or cut at ANY byte length independently, leftover .part: open succeeds and represents exactly the maximal prefix of completely written lines; repaired series takes appends and reads them back (C05_open_after_crash, C05_repair_then_append); the same for every payload size under the marker-word condition of C04 (C05_open_after_crash_any_payload).",
+ "C05": "Proved for the model: data file cut at ANY byte length, index absent or cut at ANY byte length independently, leftover .part: open succeeds and represents exactly the maximal prefix of completely written lines (C05_open_after_crash for payload sizes >= 4, C05_open_after_crash_any_payload for every payload size under the marker-word condition of C04); and the inductive closure over whole histories: ANY sequence of appends (accepted or refused), reads, close-and-reopen steps and crashes followed by an open - repeated crash-repair-append cycles of any length - keeps the series in its invariant for exactly the lines the specification expects, every open succeeds, every read returns exactly the selected lines (C05_every_history, C05_every_history_from_create, C05_complete_lines). Outside the theorems: payload sizes 0..3 with 0xFFFF continuation words (known finding D6).",
  "C06": "Proved for the model: index = function of the data; appends keep it; the chunked rebuild (with carry over any number of 16 KiB boundaries) finds exactly the sections of any well-formed series; validation on open accepts a prefix-of-history index only when it is the index of the data, otherwise rebuilds (C06_rebuild, C05_index_validation, C05_index_rebuild).",
  "C07": "Proved: reference decoder inverts reference encoder for the documented layouts; the model's five write/read layouts are the documented ones; constants regenerated from the source agree with the documented values. Open of hand-encoded non-canonical files and of the two assets: judged + correspondence.",
  "C08": "Proved in full for the model, one session: any number of cache levels, any bucket sizes >= 1, any list: after every accepted append every cache data file is its header + the reference encoding of the bucket means, its index the index of that (C08_session, C08_append, C08_files). After reopen: C09.",
- "C09": "Proved for the model, payload sizes >= 4, the aligned case only: reopen with the same levels when the line count is a multiple of every bucket size leaves every file untouched and re-establishes the invariant (C09_reopen_aligned). Unaligned reopen and damaged caches deviate in the library: known finding D10 (reported as KNOWN-FINDING); all other states judged.",
+ "C09": "Proved for the model, the aligned case: reopen with the same levels when the line count is a multiple of every bucket size leaves every file untouched and re-establishes the invariant (C09_reopen_aligned for payload sizes >= 4; C09_reopen_aligned_any_payload for every payload size under the marker-word condition of C04 on the source and the levels); closed over whole histories of appends, resampling reads and aligned reopens: every cache file stays the cache of one uninterrupted session (C09_every_aligned_history, _from_create). Unaligned reopen and damaged caches deviate in the library: known finding D10 (reported as KNOWN-FINDING); all other states judged.",
  "C10": "Proved in full for the model (no caches): every range, every n >= 1: the uniform bucket means of exactly the selected lines, at most 2n samples, unbounded sums (C10_resampling_read).",
- "C11": "Proved for the model: whichever configured level the estimate loop settles on, read_n returns the uniform resampling of that level's lines in the range, at most 2n; the order assertion passes for ascending bucket sizes (after the D17 fix). Not proved: that the estimate loop itself cannot reach its unreachable!() arm.",
+ "C11": "Proved for the model: for every cache configuration with ascending bucket sizes, every n >= 1 and every pair of bounds read_n returns the uniform bucket means (at most 2n) of the lines of one of the configured levels inside the range, or a range error when that level has no line there (C11_read_n_total); the estimate loop is total: RoughPos::new never yields the pair of search areas that estimate_lines marks unreachable!() (C11_unreachable_arm_is_unreachable, C11_level_loop_total); the order assertion passes (after the D17 fix). Which admissible level is picked is not pinned by the specification (the judge accepts every admissible level). State after reopen: C09.",
  "C12": "Proved for the model under the representation invariant (hence after create, appends, reopen and crash recovery where C04/C05 are proved): len, range, payload_size, last_line.",
  "C13": "Proved in full: first n = prefix of the full read for every range (model); paging by Excluded(last) visits every line exactly once for every page size (spec level).",
- "C14": "Proved for the model: zero/range error exactly when nothing is selected; otherwise the exact formula count = lines + K * sections opened inside the selection. That this is within the specification's bound (sections at or inside the range) is judged, not proved.",
+ "C14": "Proved in full for the model: zero/range error exactly when nothing is selected; otherwise count = lines + K * sections opened inside the selection (C14_count), which is at least the lines a read returns and exceeds them by at most K slots per full-timestamp section at or inside the range - the specification's bound sections_touched, for whatever full timestamp the seek settles on (C14_within_bound, C14_any_start: a greedy-interleaving argument).",
  "C15": "Proved in full for the model: the 65534 rule as a characterisation of the encoder; an accepted append writes exactly the reference bytes; the data file is a function of header and lines.",
  "C16": "Proved for the model, with any number of cache levels: an accepted append leaves every file of the series with its old content as a byte prefix and touches no other file; reads and accessors return the file system unchanged (the fs in `= (fs, ..)` of the read theorems).",
  "C17": "Proved for the model: create over an existing series / too large header / stale index: error and no residue; open of a missing series creates nothing; header parser returns stored payload size and header for every payload size; other payload size or other header demanded: error, nothing touched. Known finding D13 (stale cache file residue).",
- "C18": "Proved for the model: on arbitrary bytes the reader hands the processor exactly the lines certified by the specification's skipping decoder - all with consent, those before the first lone marker then the corruption error without. That the certified lines of a once-damaged file are a subsequence of the appended ones: checked per history by the judge.",
- "C19": "Proved for the model under the invariant, all arguments: read_all, read_first_n, n_lines, read_n (no caches), last_line, push, len return a value or an error (no panic, no exhausted loop bound). With caches and builder calls: judged (incl. extreme arguments).",
+ "C18": "Proved for the model: on arbitrary bytes the reader hands the processor exactly the lines certified by the specification's skipping decoder - all with consent, those before the first lone marker then the corruption error without (C18_consent, C18_no_consent); on a data region with one damaged line (a section's second marker line lost, or a data line's delta turned into the marker pattern) the certified lines are a sublist of the appended lines: only genuine lines with their original timestamps (C18_second_marker_lost, C18_delta_lost). Not proved: the seek that precedes a bounded read of a damaged file (judged).",
+ "C19": "Proved for the model under the invariant, all arguments: read_all, read_first_n, n_lines, read_n, last_line, push, len return a value or an error (no panic, no exhausted loop bound); read_n also with any cache levels (C19_read_n_with_caches: the unreachable!() arm of the estimate is never reached); every open of every history of C05 / C09 succeeds. Builder calls on arbitrary files: judged (incl. extreme arguments).",
 }
 DEFAULT = "Machine-checked theorems about the Coq model/spec for the parts listed in props/%s.v (see DESIGN.md section 9 for which statements are proved in full and which are _partial); the remaining obligations of the property are at present covered by the extracted specification judging the real library and by model/implementation correspondence on generated histories - that part is testing, not proof."
 props = [json.loads(l) for l in open('/verif/properties.jsonl')]
